@@ -3,7 +3,7 @@ C12 driver: parses the case lines that harness/c12/c12.c executes against the re
 (`model` mode), or parses an implementation trace into events and runs the specification oracle (`judge` mode).
 
 Case lines:   script u<k> =<text> <op>;<op>...   |  conn  |  send u<k> <data>  |  close u<k>  |  cycle  |  run
-ops:          kick,u<k> | drop,u<k> | ecmd,u<k>,<text> | gc | it | itn
+ops:          kick,u<k> | drop,u<k> | ecmd,u<k>,<text> | gc | it | itn | err | exec
 Texts in traces are `=` followed by [a-z0-9] literally and %xx for every other byte.
 -/
 import NV.Common.Proto
@@ -67,6 +67,9 @@ def render : Ev → String
   | .it u r => s!"it u{u} {b01 r}"
   | .endc n m l => l.foldl (fun acc (i, u, f) => acc ++ s!" {i}:u{u}:{f}") s!"end {n} max={m}"
   | .crash w => s!"crash {w}"
+  | .err u => s!"throw u{u}"
+  | .exec u r => s!"exec u{u} {b01 r}"
+  | .abort n => s!"abort {n}"
   | .other l => l
 
 def parse01 (s : String) : Option Bool := if s == "1" then some true else if s == "0" then some false else none
@@ -96,6 +99,9 @@ def parseEv (line : String) : Ev :=
     | ["it", u, r] => do some (.it (← parseUid u) (← parse01 r))
     | "end" :: n :: m :: l =>
       if m.startsWith "max=" then do some (.endc (← n.toNat?) (← (m.drop 4).toString.toNat?) (← parseLayout l)) else none
+    | ["throw", u] => do some (.err (← parseUid u))
+    | ["exec", u, r] => do some (.exec (← parseUid u) (← parse01 r))
+    | ["abort", n] => do some (.abort (← n.toNat?))
     | "crash" :: w => some (.crash (" ".intercalate w))
     | _ => none
   r.getD (.other line)
@@ -108,6 +114,8 @@ def parseOp (s : String) : Option Op :=
   | ["gc"] => some .gc
   | ["it"] => some .it
   | ["itn"] => some .it      -- input_to with I_NOECHO: the echo flag does not touch scheduling
+  | ["err"] => some .err
+  | ["exec"] => some .exec
   | _ => none
 
 structure Parsed where
@@ -157,6 +165,7 @@ def renderViol : Viol → String
   | .starved u n => s!"starved user=u{u} cycle={n}: complete command waiting, user connected, not served"
   | .fifo u t => s!"fifo user=u{u} text={enc t}: executed command is not the oldest pending input"
   | .idleWait n u => s!"idle-wait cycle={n} user=u{u}: backend blocks in poll although a complete command is buffered"
+  | .overtaken u v n => s!"overtaken user=u{u} waiting=u{v} cycle={n}: served again while another user with a complete command still waits"
   | .efun t x => s!"efun user=u{t} text={enc x}: command() was not executed at once"
   | .outside u => s!"outside user=u{u}: buffered command executed outside a backend cycle"
   | .crash w => s!"crash {w}"
